@@ -161,7 +161,13 @@ def run_case(case, ctx):
                 except Exception:
                     pass
                 del rec.calls[:]
-            out, info = d(laid_out(x) if shape else float(x), *args, **kwds)
+            x_arg = laid_out(x) if shape else float(x)
+            out, info = d(x_arg, *args, **kwds)
+            if shape:
+                ctx.count('callers_array_unchanged_asserted')
+                if _bits(x_arg) != _bits(x):
+                    ctx.reject('callers_array_modified', observed=np.ravel(x_arg)[:6], expected=np.ravel(x)[:6], method=method)
+                    return
     except Exception as exc:
         ctx.reject('raised', observed=repr(exc)[:200], method=method)
         return
